@@ -67,6 +67,7 @@ def solve2 (u w b : Pt) : Option (Rat × Rat) :=
 structure Cross where
   pt : Pt
   t : Rat
+  deriving DecidableEq
 
 /-- the body of the loop of `line_polygon_intersections` for one edge: the crossing it adds to the
     dict `ind`, if any (`xi[0]` along the edge and `xi[1]` along the line both in `[-tol, 1+tol]`) -/
@@ -144,6 +145,7 @@ structure Seg where
   pout : Pt
   sin : Rat
   sout : Rat
+  deriving DecidableEq
 
 /-- `dist` (entry distance) up to the factor ‖line‖ -/
 def Seg.tin (s : Seg) : Rat := s.sin.abs
@@ -210,5 +212,51 @@ def columnTrack (g : Geo) (a b : Pt) : TrackOut :=
   | .ok st =>
     if sortTie st.track then .unstable "sort-tie"
     else .ok (st.track.mergeSort fun s s' => decide (s.tin ≤ s'.tin))
+
+/-! ### decidable hypotheses of the track theorems (Props/C12.lean), evaluated by the driver on every
+    explored line; they are not part of the model of the code -/
+
+/-- exactly two crossings, parameters inside the line, further apart than the clip tolerance -/
+def crossedLongB (g : Geo) (a b : Pt) (ci : Nat) : Bool :=
+  match crossings (g.poly ci) a b with
+  | [c1, c2] =>
+    decide (0 ≤ c1.t) && decide (c1.t ≤ 1) && decide (0 ≤ c2.t) && decide (c2.t ≤ 1) &&
+    decide (maxSideSq (g.poly ci) / 1000000 < (c2.t - c1.t) * (c2.t - c1.t) * distSq a b) &&
+    decide (0 < maxSideSq (g.poly ci))
+  | _ => false
+
+/-- no column contains both end points (the loop does not `break`) -/
+def notInOneB (g : Geo) (a b : Pt) : Bool :=
+  (List.range g.ncols).all fun c => !(g.containsPoint c a && g.containsPoint c b)
+
+/-- at most one column contains the point -/
+def uniqueAtB (g : Geo) (p : Pt) : Bool :=
+  decide (((List.range g.ncols).filter fun c => g.containsPoint c p).length ≤ 1)
+
+def boxSymB (g : Geo) (a b : Pt) : Bool :=
+  (List.range g.ncols).all fun ci => lineIntersectsRectangle (g.bbox ci) a b == lineIntersectsRectangle (g.bbox ci) b a
+
+/-- every column that passes the bounding-box test is either not crossed at all or crossed cleanly -/
+def cleanB (g : Geo) (a b : Pt) : Bool :=
+  (List.range g.ncols).all fun ci =>
+    !(lineIntersectsRectangle (g.bbox ci) a b == some true) ||
+      (crossings (g.poly ci) a b).isEmpty || crossedLongB g a b ci
+
+def revHypB (g : Geo) (a b : Pt) : Bool :=
+  notInOneB g a b && uniqueAtB g a && uniqueAtB g b && boxSymB g a b && cleanB g a b
+
+/-- entries run forwards along the line without overlapping, from parameter `lo` on -/
+def orderedB : Rat → List Seg → Bool
+  | lo, [] => decide (lo ≤ 1)
+  | lo, s :: r => decide (lo ≤ s.sin) && decide (s.sin ≤ s.sout) && orderedB s.sout r
+
+/-- counts for the evidence: columns passing the box test / of these: not crossed, crossed cleanly, other -/
+def trackHypCounts (g : Geo) (a b : Pt) : Nat × Nat × Nat × Nat :=
+  (List.range g.ncols).foldl (fun acc ci =>
+    if lineIntersectsRectangle (g.bbox ci) a b == some true then
+      if (crossings (g.poly ci) a b).isEmpty then (acc.1 + 1, acc.2.1 + 1, acc.2.2.1, acc.2.2.2)
+      else if crossedLongB g a b ci then (acc.1 + 1, acc.2.1, acc.2.2.1 + 1, acc.2.2.2)
+      else (acc.1 + 1, acc.2.1, acc.2.2.1, acc.2.2.2 + 1)
+    else acc) (0, 0, 0, 0)
 
 end Model.Track
